@@ -37,12 +37,68 @@ def parse : List String → Except String (List Ev)
     | none => .error t
     | some e => (parse ts).map (e :: ·)
 
+/-- diagnosis of a refused event (not used by any theorem): which guard of the model failed, and the property it stands for -/
+def whyRequest (s : S) (op pid : Nat) (k : Kind) (dup : Option Bool) (body : Nat) : String :=
+  if pid = 0 then "C08 packet identifier 0" else
+  if s.isDone op then "C05 request packet of an operation that has already completed" else
+  match s.known op with
+  | none => "model request packet of an unknown operation"
+  | some (k', _) =>
+    if k' ≠ k then "model request packet type does not match the API call" else
+    match s.slot pid with
+    | none =>
+      if s.pidOf op ≠ none then "C08 operation transmitted with a different packet identifier than before"
+      else if dup = some true then "C03 first transmission has DUP=1" else "model ?"
+    | some sl =>
+      if sl.op ≠ op then "C08 packet identifier is in use by another outstanding operation"
+      else if sl.body ≠ body then "C03 retransmission differs from the first transmission beyond the DUP bit"
+      else if sl.okBefore && dup = some false then "C03 retransmission with DUP=0 although an earlier transmission was written successfully"
+      else match sl.phase with
+        | .relIdle | .relWriting | .relWaiting => "C03 PUBLISH transmitted again after the PUBREC was consumed"
+        | .finished _ _ => "C03 request transmitted again after the final acknowledgement was consumed"
+        | .writing => "model request twice in one write"
+        | _ => "model ?"
+
+def why (s : S) : Ev → String
+  | .init _ _ _ => "model operation name used twice"
+  | .wr => "model write started while a write is in progress"
+  | .wrOk | .wrFail => "model write completion without a write"
+  | .pk p =>
+    if !s.writing then "model packet outside a write" else
+    match p with
+    | .publish op q pid dup body =>
+      let k := if q = 1 then Kind.pub1 else .pub2
+      match request s op pid k dup body with
+      | none => whyRequest s op pid k (some dup) body
+      | some s1 => if (account s1 pid).isNone then "C07 QoS>0 PUBLISH written although the send quota of this connection (Receive Maximum) is used up" else "model ?"
+    | .subscribe op pid body => whyRequest s op pid .sub none body
+    | .unsubscribe op pid body => whyRequest s op pid .unsub none body
+    | .pubrel pid =>
+      match s.slot pid with
+      | none => "C03 PUBREL for an identifier no outstanding QoS 2 publish owns"
+      | some _ => "C03 PUBREL although no successful PUBREC was consumed for this identifier"
+    | .other => "model ?"
+  | .doneOk op _ _ =>
+    if s.isDone op then "C05 operation completed twice" else
+    match s.known op with
+    | some (.sub, _) | some (.unsub, _) => "C14 (un)subscribe completed without error although no matching well-formed acknowledgement with these reason codes and properties was consumed after its request was written"
+    | _ => "C01 publish completed without error although no matching final acknowledgement with this reason code and these properties was consumed after its PUBLISH was written"
+  | .doneOther op => if s.isDone op then "C05 operation completed twice" else "model completion of an unknown operation"
+  | _ => "model ?"
+
+def stateAt (s : S) : List Ev → Nat → S
+  | [], _ => s
+  | _, 0 => s
+  | e :: es, i + 1 => match Mqtt5V.Model.Trace.step s e with
+    | some s' => stateAt s' es i
+    | none => s
+
 def step (toks : List String) : String :=
   match parse toks with
   | .error t => s!"bad-op {t}"
   | .ok evs =>
     match firstReject init evs 0 with
     | none => "accept"
-    | some i => s!"reject {i} {toks.getD i "?"}"
+    | some i => s!"reject {i} {toks.getD i "?"} {why (stateAt init evs i) (evs.getD i .wr)}"
 
 end Driver.Trace
